@@ -243,6 +243,7 @@ class Evaluate:
     raises = ('ApplicationStatusParseError',)
     returns = ('bool', 'List[bool]')
     types = {'node': 'AstNode'}
+    assumed = True      # NOT proved: backed by the bounded enumeration of pyvc/structural_c15.py (see not_decided)
 
     def modifies(self):
         return []
